@@ -50,6 +50,8 @@ func VerifSymTokens(k int) []lexer.Token {
 		for j, n := range lrTermNames {
 			if n == "PREDEF" {
 				to[j] = verifPredefKeys[i%len(verifPredefKeys)]
+			} else if n == "IDENT" && i == 2 {
+				to[j] = "start" // so that a specification with a start rule is among the sequences
 			} else {
 				to[j] = toks[i].Lexeme
 			}
